@@ -192,7 +192,7 @@ OutIdxOf(ts) ==
              \o OutIdxOf(Tail(ts))
 
 ExpectedOut ==
-    IF cas.st THEN Cat(OutChars(decl.src, decl.out, C.nl))
+    IF cas.st THEN Cat(RenderChars(decl.src, decl.out, C))
     ELSE IF NoDelimStart(Raw, C) THEN Cat(ExpectedPlain(Raw, C))
     ELSE "?"
 
